@@ -68,13 +68,20 @@ def cacheacc_cases(ctx):
             a.accumulate(b)
             reads.append(([v[1] for v in a.value], a.n))
             reads.append(([v[1] for v in b.value], b.n))
+            for (tt, oid) in sc:
+                a.accumulate(('o', oid))
+            reads.append(([v[1] for v in a.value], a.n))
             return reads
-        readings = [x[0] for x in sorted(sa + sb, key=lambda p: p[1])]
+        sc = []
+        for _ in range(rng.choice([0, 1, 2, 5])):
+            t += rng.choice([1, 2])
+            sc.append((t, next(ids)))
+        readings = [x[0] for x in sorted(sa + sb, key=lambda p: p[1])] + [x[0] for x in sc]
         reads, clk = with_clock(readings, run)
         case = dict(kind='CacheAccumulator', L=L, a=sa, b=sb)
         ctx.case(('acc', L, sa, sb), na > 0 and nb > 0, sample=case if na + nb <= 8 else None)
         ctx.count('cacheacc')
-        (va, ca), (vb, cb), (vm, cm), (vb2, cb2) = reads
+        (va, ca), (vb, cb), (vm, cm), (vb2, cb2), (vc, cc) = reads
         if va != [x[1] for x in sa][-min(na, L):] if na else va != []:
             ctx.fail('cacheacc-not-last-k', 'value %s, the last %d of %s are %s' % (va, L, [x[1] for x in sa], [x[1] for x in sa][-L:]), case)
         if (ca, cb) != (na, nb):
@@ -89,9 +96,13 @@ def cacheacc_cases(ctx):
                 vm, cm, want, na + nb), case)
         if (vb2, cb2) != (vb, cb):
             ctx.fail('merge-changes-other:CacheAccumulator', 'the merged-in cache changed', case)
+        wantc = ([m[3] for m in full] + [p[1] for p in sc])[-L:] if (full or sc) else []
+        if vc != wantc or cc != na + nb + len(sc):
+            ctx.fail('cacheacc-after-merge-wrong', 'after a merge and %d further observations the cache holds %s (n=%s), expected %s' % (len(sc), vc, cc, wantc), case)
         lines.append('cache.acc %d | %s' % (L, ' '.join('%d:%d' % p for p in sa)))
-        lines.append('cache.accmerge %d | %s | %s' % (L, ' '.join('%d:%d' % p for p in sa), ' '.join('%d:%d' % p for p in sb)))
-        metas.append((case, (va, ca), (vm, cm)))
+        lines.append('cache.accmerge %d | %s | %s | %s' % (L, ' '.join('%d:%d' % p for p in sa), ' '.join('%d:%d' % p for p in sb),
+                                                       ' '.join('%d:%d' % p for p in sc)))
+        metas.append((case, (va, ca), (vc, cc)))
     mout = core.run_driver(lines)
     for k, (case, ra, rm) in enumerate(metas):
         for ml, (v, c) in ((mout[2 * k], ra), (mout[2 * k + 1], rm)):
@@ -157,7 +168,19 @@ def cachemax_cases(ctx):
                 ctx.fail(sig, 'merged cache keys %s (n=%s); the %d largest keys of both streams are %s (n=%d)' % (keys, a.n, L, want, na + nb), case)
             if (b.n, list(b.value)) != before_b:
                 ctx.fail('merge-changes-other:CacheMaximum', 'the merged-in cache changed', case)
-            lines.append('cache.maxmerge %d | %s | %s' % (L, ' '.join('%d:%d:%d' % o for o in sa), ' '.join('%d:%d:%d' % o for o in sb)))
+            sc = []
+            for _ in range(rng.choice([0, 1, 3, 6])):
+                t += rng.choice([1, 2])
+                sc.append((rng.randint(-3, 8), t, next(ids)))
+            for o in sc:
+                a.accumulate(o)
+            keys = [v[0] for v in a.value]
+            want = sorted(o[0] for o in sa + sb + sc)[-min(na + nb + len(sc), L):] if na + nb + len(sc) else []
+            if keys != want or a.n != na + nb + len(sc):
+                ctx.fail('cachemax-after-merge-wrong', 'after a merge and %d further observations: keys %s (n=%s), the %d largest seen are %s' % (
+                    len(sc), keys, a.n, L, want), case)
+            lines.append('cache.maxmerge %d | %s | %s | %s' % (L, ' '.join('%d:%d:%d' % o for o in sa), ' '.join('%d:%d:%d' % o for o in sb),
+                                                            ' '.join('%d:%d:%d' % o for o in sc)))
             rm = (a.n, keys)
         metas.append((case, ra, rm))
     mout = core.run_driver(lines)
